@@ -283,7 +283,7 @@ Lemma conn_run_v2 tmo limit chunks os od fam L rest :
                        | Some a, Some b => (Some (a, h_sport h), Some (b, h_dport h))
                        | _, _ => (None, None)
                        end in
-   VL [vaddr s; vaddr d; VB (skipn (Z.to_nat L) rest); VZ 0; VZ 0]).
+   VL [vaddr s; vaddr_d d; VB (skipn (Z.to_nat L) rest); VZ 0; VZ 0]).
 Proof.
   intros Hs Hb HL Hfam Hmin Hrest Hlim. unfold conn_run. fold (ne_filter chunks).
   set (cs := ne_filter chunks).
@@ -326,7 +326,7 @@ Theorem v2_proxy_roundtrip tmo limit chunks os od fam src dst sp dp tlv payload 
   0 <= sp < 65536 -> 0 <= dp < 65536 ->
   16 + blen (block_ip src dst sp dp ++ tlv) <= eff_limit limit ->
   conn_run tmo limit chunks os od =
-  VL [VL [VB (canon_ip src); VZ sp]; VL [VB (canon_ip dst); VZ dp]; VB payload; VZ 0; VZ 0].
+  VL [VL [VB (canon_ip src); VZ sp]; VL [VB (canon_ip dst); VZ dp; VZ 1]; VB payload; VZ 0; VZ 0].
 Proof.
   intros Hs Hb Hfam Hsp Hdp Hlim.
   rewrite enc_v2_proxy_stream in Hs.
@@ -477,7 +477,7 @@ Proof.
   assert (Hbud : budget r0 = eff_limit limit) by (unfold budget, r0, blen; cbn [r_buf r_lim length]; lia).
   assert (Hfin : forall r1, inv r1 -> remaining r1 = s ->
             (let '(data, e) := drain (fuel_of r0 + fuel_of r0) (mkRd (r_buf r1) (r_chunks r1) NOLIMIT (r_err r1) false E_EOF) [] in
-             VL [vaddr None; vaddr None; VB data; VZ (if e =? E_EOF then 0 else if e =? E_CLOSED then 1 else if e =? E_TMO then 2 else 3); VZ 0])
+             VL [vaddr None; vaddr_d None; VB data; VZ (if e =? E_EOF then 0 else if e =? E_CLOSED then 1 else if e =? E_TMO then 2 else 3); VZ 0])
             = VL [VL []; VL []; VB s; VZ 0; VZ 0]).
   { intros r1 I1 R1. rewrite drain_after; [|exact I1|].
     - rewrite R1. reflexivity.
@@ -768,7 +768,7 @@ Theorem v1_tcp4_roundtrip tmo limit chunks os od src dst sp dp payload :
   blen src = 4 -> blen dst = 4 -> wf_bytes src = true -> wf_bytes dst = true ->
   0 <= sp < 65536 -> 0 <= dp < 65536 ->
   blen (enc_v1_tcp4 src dst sp dp) <= eff_limit limit ->
-  conn_run tmo limit chunks os od = VL [VL [VB src; VZ sp]; VL [VB dst; VZ dp]; VB payload; VZ 0; VZ 0].
+  conn_run tmo limit chunks os od = VL [VL [VB src; VZ sp]; VL [VB dst; VZ dp; VZ 1]; VB payload; VZ 0; VZ 0].
 Proof.
   intros Hs Hb Hls Hld Hws Hwd Hsp Hdp Hlim.
   destruct (wf4 src Hls Hws) as (a & b & c & d & -> & Ha & Hb' & Hc & Hd).
@@ -812,7 +812,7 @@ Theorem v1_tcp6_roundtrip tmo limit chunks os od ta tb sp dp payload :
   os <> [] -> od <> [] ->
   0 <= sp < 65536 -> 0 <= dp < 65536 ->
   blen (enc_v1_tcp6 ta tb sp dp) <= eff_limit limit ->
-  conn_run tmo limit chunks os od = VL [VL [VB (canon_ip os); VZ sp]; VL [VB (canon_ip od); VZ dp]; VB payload; VZ 0; VZ 0].
+  conn_run tmo limit chunks os od = VL [VL [VB (canon_ip os); VZ sp]; VL [VB (canon_ip od); VZ dp; VZ 1]; VB payload; VZ 0; VZ 0].
 Proof.
   intros Hs Hb A32 A10 Ac B32 B10 Bc Hos Hod Hsp Hdp Hlim.
   destruct (port_ok sp Hsp) as (DSp & PSp). destruct (port_ok dp Hdp) as (DDp & PDp).
@@ -1253,7 +1253,7 @@ Definition ex_chunks_v2 : list bytes :=
   [[13; 10; 13]; [10; 0; 13; 10; 81; 85; 73; 84; 10; 33; 17; 0]; [15; 1; 2; 3; 4; 5; 6; 7; 8; 0; 80; 1; 187; 9; 9; 9; 104]; [105]].
 Lemma ex_v2_lemma :
   concat ex_chunks_v2 = enc_v2_proxy 17 [1; 2; 3; 4] [5; 6; 7; 8] 80 443 [9; 9; 9] ++ [104; 105]
-  /\ conn_run false 0 ex_chunks_v2 [] [] = VL [VL [VB [1; 2; 3; 4]; VZ 80]; VL [VB [5; 6; 7; 8]; VZ 443]; VB [104; 105]; VZ 0; VZ 0].
+  /\ conn_run false 0 ex_chunks_v2 [] [] = VL [VL [VB [1; 2; 3; 4]; VZ 80]; VL [VB [5; 6; 7; 8]; VZ 443; VZ 1]; VB [104; 105]; VZ 0; VZ 0].
 Proof. split; vm_compute; reflexivity. Qed.
 Definition ex_chunks_local : list bytes := [[13; 10; 13; 10; 0; 13; 10; 81; 85; 73; 84; 10; 32]; [0; 0; 0; 71; 69; 84]].
 Lemma ex_local_lemma :
@@ -1263,7 +1263,7 @@ Proof. split; vm_compute; reflexivity. Qed.
 (* "PROXY TCP4 1.2.3.4 5.6.7.8 80 443\r\nhi" and "PROXY UNKNOWN\r\nhi", byte-split *)
 Definition ex_v1 : bytes := enc_v1_tcp4 [1; 2; 3; 4] [5; 6; 7; 8] 80 443 ++ [104; 105].
 Lemma ex_v1_lemma :
-  conn_run false 0 (map (fun b => [b]) ex_v1) [] [] = VL [VL [VB [1; 2; 3; 4]; VZ 80]; VL [VB [5; 6; 7; 8]; VZ 443]; VB [104; 105]; VZ 0; VZ 0]
+  conn_run false 0 (map (fun b => [b]) ex_v1) [] [] = VL [VL [VB [1; 2; 3; 4]; VZ 80]; VL [VB [5; 6; 7; 8]; VZ 443; VZ 1]; VB [104; 105]; VZ 0; VZ 0]
   /\ conn_run false 0 [enc_v1_unknown [] ++ [104; 105]] [] [] = VL [VL []; VL []; VB [104; 105]; VZ 0; VZ 0].
 Proof. split; vm_compute; reflexivity. Qed.
 (* a v2 header with an unsupported command is refused without data *)
